@@ -799,6 +799,7 @@ def gen_queries(rng, n, cutoff, with_fock):
 
 
 QUAD_GRID = np.linspace(-7, 7, 141)
+REF_EXTRA_TOL = {}
 
 
 def _coh_ket(alpha, dim):
@@ -839,11 +840,17 @@ def ref_from_gauss(mu, cov, n, q, cutoff):
         return (hb / 2) ** len(q["modes"]) * _G(rm, rc)
     if m == "number_expectation":
         rm, rc = red(q["modes"])
-        pr = twq.probabilities(rm, rc, 16, hbar=hb)
         k = len(q["modes"])
-        grids = np.meshgrid(*[np.arange(16)] * k, indexing="ij")
+        if k == 1:   # closed form
+            return [(np.trace(rc) + rm @ rm) / (2 * hb) - 0.5, (np.trace(rc @ rc) + 2 * rm @ rc @ rm) / (2 * hb ** 2) - 0.25]
+        cut = 24
+        pr = twq.probabilities(rm, rc, cut, hbar=hb)
+        grids = np.meshgrid(*[np.arange(cut)] * k, indexing="ij")
         prod = np.prod(grids, axis=0)
         mean = float(np.sum(prod * pr))
+        # the reference is a truncated sum: widen the tolerance by a bound on what the tail can contribute
+        tail = max(0.0, 1.0 - float(np.sum(pr)))
+        REF_EXTRA_TOL["number_expectation"] = 10 * tail * float(cut) ** (2 * k)
         return [mean, float(np.sum(prod ** 2 * pr)) - mean ** 2]
     if m == "fidelity_vacuum":
         return _gauss_overlap(mu, cov, np.zeros(2 * n), hb)
@@ -1005,7 +1012,9 @@ def eval_gauss_query(spec, rep, q, cutoff, cache=None):
         return None
     if m == "backend_state":
         return _eval_backend_state(eng, st, rep, n, q["modes"], mu, cov, cutoff)
+    REF_EXTRA_TOL.clear()
     want = ref_from_gauss(mu, cov, n, q, cutoff)
+    tol = tol + REF_EXTRA_TOL.get(m, 0.0)
     try:
         got = call_query(st, rep, q, cutoff)
     except NotImplementedError:
